@@ -56,10 +56,17 @@ class Gray(Harness):
         ctx.assume(And(m >= 0, m < (1 << 62)))
         arr = np.array([n, m], dtype=object)
         ga = conv.binary2gray(arr)
+        ga_before = list(ga)
         ba = conv.gray2binary(ga)
         ctx.prove('array-roundtrip', And(ba[0] == n, ba[1] == m))
+        # (the arrays handed over are used again afterwards: the conversions
+        # must not write into their argument)
+        ctx.prove('array-argument-unchanged',
+                  And(arr[0] == n, arr[1] == m, ga[0] == ga_before[0],
+                      ga[1] == ga_before[1]))
         ctx.prove('array-elementwise',
-                  And(ga[0] == g, ga[1] == conv.binary2gray(m)))
+                  And(ga_before[0] == g,
+                      ga_before[1] == conv.binary2gray(m)))
 
     def replay(self, cfg, name, model):
         conv = repo_module(CONV)
@@ -78,6 +85,24 @@ class Gray(Harness):
                     conv.binary2gray(v) ^ conv.binary2gray(v + 1)).count(
                         '1') != 1:
                 bad.append(('adjacent', v))
+        # arrays that are used again after the call
+        for dt in (np.int64, object):
+            a0 = np.array([n, m], dtype=dt)
+            a = a0.copy()
+            ga = conv.binary2gray(a)
+            ga0 = ga.copy()
+            ba = conv.gray2binary(ga)
+            if list(a) != list(a0) or list(ga) != list(ga0):
+                bad.append(('array argument-modified', n))
+            if list(ba) != [n, m]:
+                bad.append(('array g2b(b2g)', n))
+            if [int(x) for x in ga0] != [conv.binary2gray(n),
+                                         conv.binary2gray(m)]:
+                bad.append(('array elementwise', n))
+            x = a0.copy()
+            if list(conv.binary2gray(conv.gray2binary(x))) != list(a0) or \
+                    list(x) != list(a0):
+                bad.append(('array b2g(g2b)', n))
         kinds = sorted({b[0].split()[-1] for b in bad})
         big = all(v >= 65536 for _, v in bad) if bad else False
         return dict(reproduced=bool(bad),
@@ -91,6 +116,14 @@ class Gray(Harness):
         for _ in range(200):
             v = rng.randrange(0, 1 << 16)
             assert conv.gray2binary(conv.binary2gray(v)) == v
+            k += 1
+        for _ in range(20):
+            rp = self.replay(cfg, 'concrete', dict(
+                n=rng.randrange(0, 1 << 62), m=rng.randrange(0, 1 << 20)))
+            if rp['reproduced']:
+                from pysym.runner import ConcreteViolation
+                raise ConcreteViolation(rp['key'] + ':concrete-probe',
+                                        rp['detail'])
             k += 1
         return k
 
